@@ -7,40 +7,36 @@ import (
 	"golang.org/x/tools/go/ssa"
 )
 
-// c33Monotone: the per-connection counters of serverAuthenticate
-// (authFailures, noneAuthCount, and the attempt counter) are loop-carried
-// values that only ever grow: every definition reaching the loop header from a
-// back edge is the previous value or the previous value plus a positive
-// constant. A reset (for example on partial success) would re-arm the free
-// "none" probe or let a client spread unlimited guesses over partial-success
-// rounds.
-func c33Monotone(c *Ctx, fn *ssa.Function) {
-	be := backEdges(fn)
-	found := map[string]bool{}
-	allInstrs(fn, func(in ssa.Instruction) {
-		ph, ok := in.(*ssa.Phi)
-		if !ok {
-			return
-		}
-		switch ph.Comment {
-		case "authFailures", "noneAuthCount", "authAttempts":
+// c33Monotone: the per-connection counters of serverAuthenticate (the failure
+// counter, the count of "none" requests, and the attempt counter) are
+// loop-carried values that only ever grow: every definition reaching the loop
+// header from a back edge is the previous value or the previous value plus a
+// positive constant. A reset (for example on partial success) would re-arm the
+// free "none" probe or let a client spread unlimited guesses over
+// partial-success rounds.
+//
+// The counters are identified by role, not by the names of the locals: they
+// are the integer phis of the request loop's header; the failure counter is the
+// one compared with ServerConfig.MaxAuthTries, the attempt counter the one
+// incremented on every back edge, and every remaining one is a request count
+// (the "none" count). The source name of the local is used for display only.
+func c33Monotone(s *saCtx, attempts, failures *ssa.Phi) {
+	c, fn := s.c, s.fn
+	nOther := 0
+	for _, ph := range s.c33HeaderInts() {
+		role := "request counter"
+		switch ph {
+		case attempts:
+			role = "attempt counter"
+		case failures:
+			role = "failure counter"
 		default:
-			return
+			nOther++
 		}
-		// only the loop-header phi (has a back edge)
-		hasBack := false
-		for i := range ph.Edges {
-			pred := ph.Block().Preds[i]
-			for j, s := range pred.Succs {
-				if s == ph.Block() && be[edge{pred, j}] {
-					hasBack = true
-				}
-			}
+		name := role
+		if ph.Comment != "" {
+			name += " (" + ph.Comment + ")"
 		}
-		if !hasBack {
-			return
-		}
-		found[ph.Comment] = true
 		// walk every definition feeding the back edges down to the header phi
 		seen := map[ssa.Value]bool{}
 		bad := ""
@@ -64,30 +60,31 @@ func c33Monotone(c *Ctx, fn *ssa.Function) {
 					visit(x.X, depth+1)
 					return
 				}
-				bad = fmt.Sprintf("%s is updated by %s", ph.Comment, x.String())
+				bad = fmt.Sprintf("the %s is updated by %s", name, x.String())
 			default:
-				bad = fmt.Sprintf("%s is set to %s inside the loop", ph.Comment, v.String())
+				bad = fmt.Sprintf("the %s is set to %s inside the loop", name, v.String())
 			}
 		}
 		for i, e := range ph.Edges {
 			pred := ph.Block().Preds[i]
 			isBack := false
-			for j, s := range pred.Succs {
-				if s == ph.Block() && be[edge{pred, j}] {
+			for j, sb := range pred.Succs {
+				if sb == ph.Block() && s.back[edge{pred, j}] {
 					isBack = true
 				}
 			}
 			if isBack {
 				visit(e, 0)
 			} else if k, isK := constInt(e); !isK || k != 0 {
-				bad = ph.Comment + " does not start at 0"
+				bad = "the " + name + " does not start at 0"
 			}
 		}
-		c.check(bad == "", "C33.counter-monotone", ph.Comment, ph, "starts at 0 and is only ever incremented across the requests of a connection", bad+" — the counter can be reset or lowered between requests, which re-arms an exemption or lifts a limit")
-	})
-	for _, n := range []string{"authFailures", "noneAuthCount"} {
-		if !found[n] {
-			c.fail("C33.counter-monotone", n, fn, "loop-carried counter not found (anchor lost)")
-		}
+		c.check(bad == "", "C33.counter-monotone", name, ph, "starts at 0 and is only ever incremented across the requests of a connection", bad+" — the counter can be reset or lowered between requests, which re-arms an exemption or lifts a limit")
+	}
+	if failures == nil {
+		c.fail("C33.counter-monotone", "failure counter", fn, "loop-carried counter not found (anchor lost)")
+	}
+	if nOther == 0 {
+		c.fail("C33.counter-monotone", "count of none requests", fn, "loop-carried counter not found (anchor lost)")
 	}
 }
